@@ -205,6 +205,16 @@ func (o *Observer) feed(op *operation.AnchoredOperation, opID int, refold bool) 
 	if w.CheckFold && !refold {
 		o.compare(exp, next, err, f)
 	}
+	if w.CheckIntake && !refold && exp.Rec.Via == "intake" && exp.Rec.Built.Honest {
+		// the anchored (canonical) bytes and the original request bytes apply to the same state
+		orig := *op
+		orig.OperationRequest = exp.Rec.Built.Bytes
+		next2, err2 := w.Applier.Apply(&orig, prev)
+		w.T.Count("original_vs_anchored_compared", 1)
+		if (err == nil) != (err2 == nil) || (err == nil && snapshotRM(next) != snapshotRM(next2)) {
+			w.violate("C08/original-vs-anchored", string(op.Type), "%s: original and anchored bytes of op%d fold differently (err %v vs %v)", o.name, opID, err2, err)
+		}
+	}
 	if err != nil {
 		return
 	}
